@@ -48,7 +48,7 @@ def ctrl(**kw) -> str:
             continue
         if k in ('out', 'err'):
             if isinstance(v, str):
-                v = v.encode()
+                v = v.encode('utf-8', 'surrogateescape')  # lone surrogates stand for bytes that are not UTF-8
             v = v.hex()
         elif k == 'env' and not isinstance(v, str):
             v = ':'.join(v)
